@@ -78,22 +78,82 @@ theorem cmtAfter_sp_cons (c : Bool) (X : List GCh) : cmtAfter c (.sp :: X) = cmt
   cases c <;> rfl
 
 /-- `_update_node` of an intersection whose padding holds separators -/
-theorem updateNodeBin_inter (g : GN) (hs : isSep false g.opr.format = true) (hc : cmtAfter false g.opr.format = false) :
+theorem blankSym_ne_colon (x : GCh) : blankSym x ≠ .colon := by cases x <;> simp [blankSym]
+
+theorem cleanPad_switch_none (p : Pad) (h : cleanPad p = true) : cleanPad (switchOperator p none) = true := by
+  simp only [switchOperator]
+  induction p with
+  | nil => rfl
+  | cons it p ih =>
+    simp only [cleanPad, List.all_cons, Bool.and_eq_true, List.map_cons] at h ⊢
+    refine ⟨?_, ih h.2⟩
+    cases it with
+    | cmt n => rfl
+    | str cs =>
+      have h1 : cs.contains .cmt = false := by simpa using h.1
+      simp only [Bool.not_eq_true']
+      cases hh : (cs.map blankSym).contains .cmt with
+      | false => rfl
+      | true =>
+        have : GCh.cmt ∈ cs.map blankSym := by simpa using hh
+        obtain ⟨x, hx, hxe⟩ := List.mem_map.1 this
+        have : x = .cmt := by cases x <;> simp [blankSym] at hxe <;> rfl
+        subst this
+        have : cs.contains .cmt = true := by simpa using hx
+        rw [h1] at this; cases this
+
+theorem map_blank_of_no_sym (p : Pad)
+    (h : ((strChars p).contains .colon || (strChars p).contains .hash) = false) : p.format.map blankSym = p.format := by
+  simp only [Bool.or_eq_false_iff] at h
+  have : ∀ x ∈ p.format, blankSym x = x := by
+    intro x hx
+    cases x <;> try rfl
+    · have := mem_strChars_of_mem_format hx (by decide)
+      have : (strChars p).contains .hash = true := by simpa using this
+      rw [h.2] at this; cases this
+    · have := mem_strChars_of_mem_format hx (by decide)
+      have : (strChars p).contains .colon = true := by simpa using this
+      rw [h.1] at this; cases this
+  calc p.format.map blankSym = p.format.map id := List.map_congr_left this
+    _ = p.format := List.map_id _
+
+theorem updateNodeBin_inter (g : GN) (hs : isSep false (g.opr.format.map blankSym) = true)
+    (hc : cmtAfter false g.opr.format = false) (hclean : cleanPad g.opr = true) :
     ∃ opr', updateNodeBin .inter g = { g with opr := opr' } ∧ isSep false (Pad.format opr') = true ∧
       cmtAfter false (Pad.format opr') = false ∧
       ((Pad.format opr').isEmpty = false ∨ headParens g.lchain = true ∨ headParens g.rchain = true) ∧
-      ∀ c, cmtAfter c (Pad.format opr') = cmtAfter c g.opr.format := by
+      (∀ c, cmtAfter c (Pad.format opr') = cmtAfter c g.opr.format) ∧
+      cleanPad opr' = true ∧ (strChars opr').contains .colon = false := by
   -- the padding after a possible `__switch_operator(" ")`
   let sw : Bool := (strChars g.opr).contains .colon || (strChars g.opr).contains .hash
   let opr1 : Pad := if sw then switchOperator g.opr none else g.opr
   have h1s : isSep false opr1.format = true := by
     simp only [opr1]; split
-    · rw [format_switch_none]; exact isSep_map_blank _ _ hs
-    · exact hs
+    · rw [format_switch_none]; exact hs
+    · rename_i hsw
+      have hsw' : sw = false := by simpa using hsw
+      rw [← map_blank_of_no_sym g.opr hsw']; exact hs
   have h1c : ∀ c, cmtAfter c opr1.format = cmtAfter c g.opr.format := by
     intro c; simp only [opr1]; split
     · rw [format_switch_none, cmtAfter_map_blank]
     · rfl
+  have h1clean : cleanPad opr1 = true := by
+    simp only [opr1]; split
+    · exact cleanPad_switch_none g.opr hclean
+    · exact hclean
+  have h1col : (strChars opr1).contains .colon = false := by
+    simp only [opr1]; split
+    · rw [strChars_switch_none]
+      cases hh : ((strChars g.opr).map blankSym).contains .colon with
+      | false => rfl
+      | true =>
+        have : GCh.colon ∈ (strChars g.opr).map blankSym := by simpa using hh
+        obtain ⟨y, _, hy⟩ := List.mem_map.1 this
+        exact absurd hy (blankSym_ne_colon y)
+    · rename_i hsw
+      have hsw' : sw = false := by simpa using hsw
+      simp only [sw, Bool.or_eq_false_iff] at hsw'
+      exact hsw'.1
   have hout : (if sw then (strChars g.opr).map blankSym else strChars g.opr) = strChars opr1 := by
     simp only [opr1]; split
     · rw [strChars_switch_none]
@@ -104,7 +164,7 @@ theorem updateNodeBin_inter (g : GN) (hs : isSep false g.opr.format = true) (hc 
         then { g with opr := .str [.sp] :: opr1 } else { g with opr := opr1 }) := rfl
   rw [hunf, hout]
   by_cases hcond : (!((strChars opr1).any isSpaceCh || hasParens g.lchain || hasParens g.rchain)) = true
-  · refine ⟨.str [.sp] :: opr1, ?_, ?_, ?_, Or.inl ?_, fun c => ?_⟩
+  · refine ⟨.str [.sp] :: opr1, ?_, ?_, ?_, Or.inl ?_, fun c => ?_, ?_, ?_⟩
     · rw [if_pos hcond]
     · simpa [Pad.format, PItem.format, isSep] using h1s
     · have : Pad.format (.str [.sp] :: opr1) = .sp :: opr1.format := by simp [Pad.format, PItem.format]
@@ -112,7 +172,9 @@ theorem updateNodeBin_inter (g : GN) (hs : isSep false g.opr.format = true) (hc 
     · simp [Pad.format, PItem.format]
     · have : Pad.format (.str [.sp] :: opr1) = .sp :: opr1.format := by simp [Pad.format, PItem.format]
       rw [this, cmtAfter_sp_cons, h1c]
-  · refine ⟨opr1, ?_, h1s, by rw [h1c]; exact hc, ?_, h1c⟩
+    · simpa [cleanPad] using h1clean
+    · simpa [strChars] using h1col
+  · refine ⟨opr1, ?_, h1s, by rw [h1c]; exact hc, ?_, h1c, h1clean, h1col⟩
     · rw [if_neg hcond]
     · have hcond' : ((strChars opr1).any isSpaceCh || hasParens g.lchain || hasParens g.rchain) = true := by
         cases hb : ((strChars opr1).any isSpaceCh || hasParens g.lchain || hasParens g.rchain) with
@@ -140,97 +202,5 @@ theorem updateNodeCompl_id (g : GN) (h : complOpr g.opr.format = true) : updateN
   have hm : GCh.hash ∈ g.opr.format := by rw [hS]; simp
   have := mem_strChars_of_mem_format hm (by decide)
   simp [updateNodeCompl, this]
-
-/-- **`_update_node` on every node turns `linked` into `ready`**; texts only get more closed, meanings stay. -/
-theorem update_ready (h : HS) (hl : linked h = true) :
-    ready (updateAll h) = true ∧ Le (updateAll h).fmt h.fmt ∧ Same (updateAll h) h := by
-  induction h with
-  | unit d s c n =>
-    refine ⟨?_, Le.refl _, Same.refl _⟩
-    cases c <;> cases n <;> simp_all [linked, ready, gen, updateAll]
-  | compl l n ih =>
-    cases n with
-    | none => simp [linked, gen] at hl
-    | some g =>
-      by_cases hcu : isCellUnit l = true
-      · cases l with
-        | unit d s c vn =>
-          cases c
-          · simp [isCellUnit] at hcu
-          · cases vn with
-            | none => simp [linked, gen] at hl
-            | some v =>
-              have hopr : complOpr g.opr.format = true := by
-                simp only [linked, gen, Bool.and_eq_true] at hl; exact hl.1.1.1.1.2
-              have hu : updateAll (.compl (.unit d s true (some v)) (some g)) =
-                  .compl (.unit d s true (some v)) (some g) := by
-                simp [updateAll, updateNodeCompl_id g hopr]
-              rw [hu]
-              exact ⟨by simpa [linked, ready, gen] using hl, Le.refl _, Same.refl _⟩
-        | compl _ _ => simp [isCellUnit] at hcu
-        | bin _ _ _ _ => simp [isCellUnit] at hcu
-      · have hcu' : isCellUnit l = false := by simpa using hcu
-        simp only [linked] at hl
-        rw [gen_compl_general hcu'] at hl
-        simp only [Bool.and_eq_true] at hl
-        obtain ⟨⟨⟨⟨⟨hll, ho⟩, hopr⟩, hhp⟩, hck⟩, hep⟩ := hl
-        obtain ⟨i1, i2, i3⟩ := ih hll
-        have hu : updateAll (.compl l (some g)) = .compl (updateAll l) (some g) := by
-          simp [updateAll, updateNodeCompl_id g hopr]
-        rw [hu]
-        have hcu1 : isCellUnit (updateAll l) = false := by rw [i3.cellU]; exact hcu'
-        refine ⟨?_, ?_, i3.compl_congr _ _⟩
-        · simp only [ready]
-          rw [gen_compl_general hcu1]
-          simp only [Bool.and_eq_true]
-          exact ⟨⟨⟨⟨⟨i1, ho⟩, hopr⟩, hhp⟩, chainOK_ext (ChainExt.refl _) i2 hck⟩, hep⟩
-        · rw [fmt_compl ho, fmt_compl ho]
-          exact Le.append (Le.refl _) (Le.append (wrapFmt_le (ChainExt.refl _) i2) (Le.refl _))
-  | bin o l r n ihl ihr =>
-    cases n with
-    | none => simp [linked, gen] at hl
-    | some g =>
-      simp only [linked, gen, Bool.and_eq_true, Bool.not_eq_true'] at hl
-      obtain ⟨⟨⟨⟨⟨⟨⟨hll, hlr⟩, ho⟩, hckl⟩, hckr⟩, hLc⟩, hop⟩, hep⟩ := hl
-      obtain ⟨l1, l2, l3⟩ := ihl hll
-      obtain ⟨r1, r2, r3⟩ := ihr hlr
-      have hckl' := chainOK_ext (ChainExt.refl g.lchain) l2 hckl
-      have hckr' := chainOK_ext (ChainExt.refl g.rchain) r2 hckr
-      have hLc' := (wrapFmt_le (ChainExt.refl g.lchain) l2).closed hLc
-      cases o with
-      | union =>
-        have hu : updateAll (.bin .union l r (some g)) = .bin .union (updateAll l) (updateAll r) (some g) := by
-          simp [updateAll, updateNodeBin_union g hop]
-        rw [hu]
-        refine ⟨?_, ?_, Same.bin_congr .union l3 r3 _ _⟩
-        · simp only [ready, gen, Bool.and_eq_true, Bool.not_eq_true']
-          exact ⟨⟨⟨⟨⟨⟨⟨l1, r1⟩, ho⟩, hckl'⟩, hckr'⟩, hLc'⟩, hop⟩, hep⟩
-        · rw [fmt_bin ho, fmt_bin ho]
-          exact Le.append (wrapFmt_le (ChainExt.refl _) l2)
-            (Le.append (Le.refl _) (Le.append (wrapFmt_le (ChainExt.refl _) r2) (Le.refl _)))
-      | inter =>
-        simp only [Bool.and_eq_true, Bool.not_eq_true', Bool.or_eq_true, Bool.not_false, Bool.true_or,
-          and_true] at hop
-        obtain ⟨⟨⟨hsep, hoc⟩, hul⟩, hur⟩ := hop
-        obtain ⟨opr', hg', hs', hc', hne', heq'⟩ := updateNodeBin_inter g hsep hoc
-        have hu : updateAll (.bin .inter l r (some g)) =
-            .bin .inter (updateAll l) (updateAll r) (some { g with opr := opr' }) := by
-          simp [updateAll, hg']
-        rw [hu]
-        have ho' : orderOK { g with opr := opr' } [.left, .operator, .right] = true := ho
-        refine ⟨?_, ?_, Same.bin_congr .inter l3 r3 _ _⟩
-        · simp only [ready, gen, Bool.and_eq_true, Bool.not_eq_true', Bool.or_eq_true, Bool.not_true,
-            Bool.false_or]
-          refine ⟨⟨⟨⟨⟨⟨⟨l1, r1⟩, ho'⟩, hckl'⟩, hckr'⟩, hLc'⟩, ⟨⟨⟨⟨hs', hc'⟩, ?_⟩, ?_⟩, ?_⟩⟩, hep⟩
-          · rcases hne' with h | h | h
-            · left; left; simpa using h
-            · left; right; exact h
-            · right; exact h
-          · rw [l3.isU]; exact hul
-          · rw [r3.isU]; exact hur
-        · rw [fmt_bin ho, fmt_bin ho']
-          refine Le.append (wrapFmt_le (ChainExt.refl _) l2)
-            (Le.append ?_ (Le.append (wrapFmt_le (ChainExt.refl _) r2) (Le.refl _)))
-          intro c hh; rw [heq' c] at hh; exact hh
 
 end MontePyVerif.C02
